@@ -373,13 +373,25 @@ impl Archive {
         let file_size = file.metadata()?.len();
 
         // Read footer size (last 8 bytes)
+        if file_size < 8 {
+            anyhow::bail!("Truncated archive: {file_size} bytes cannot hold a footer");
+        }
         file.seek(SeekFrom::End(-8))?;
         let mut footer_size_bytes = [0u8; 8];
         file.read_exact(&mut footer_size_bytes)?;
         let footer_size = u64::from_le_bytes(footer_size_bytes);
 
-        // Seek to start of footer
-        file.seek(SeekFrom::Start(file_size - 8 - footer_size))?;
+        // The footer must lie inside the file, in front of its own length field.
+        // A truncated file ends in arbitrary payload bytes, so this length is untrusted.
+        if footer_size > file_size - 8 {
+            anyhow::bail!(
+                "Truncated or corrupt archive: footer length {footer_size} exceeds file size {file_size}"
+            );
+        }
+
+        // Seek to start of footer (= end of the data region)
+        let data_end = file_size - 8 - footer_size;
+        file.seek(SeekFrom::Start(data_end))?;
 
         // Read footer into buffer
         let mut footer = vec![0u8; footer_size as usize];
@@ -420,6 +432,12 @@ impl Archive {
             for _ in 0..num_parts {
                 let (offset, _) = read_varint(&mut cursor)?;
                 let (size, _) = read_varint(&mut cursor)?;
+                // Every part lies in the data region that precedes the footer
+                if offset > data_end || size > data_end - offset {
+                    anyhow::bail!(
+                        "Corrupt archive: part at offset {offset} with size {size} lies outside the data region"
+                    );
+                }
                 stream.parts.push(Part::new(offset, size));
             }
 
